@@ -111,6 +111,15 @@ func (s *Session) evalBoolClause(fr *Frame, c Clause, st *State, at *ssa.BasicBl
 }
 
 func (s *Session) evalBoolClauseAt(fr *Frame, c Clause, st *State, at *ssa.BasicBlock, atIdx int) (res T) {
+	return s.evalClauseMode(fr, c, st, at, atIdx, false)
+}
+
+// evalGoalClauseAt: the clause as a proof goal (see evalGoal).
+func (s *Session) evalGoalClauseAt(fr *Frame, c Clause, st *State, at *ssa.BasicBlock, atIdx int) (res T) {
+	return s.evalClauseMode(fr, c, st, at, atIdx, true)
+}
+
+func (s *Session) evalClauseMode(fr *Frame, c Clause, st *State, at *ssa.BasicBlock, atIdx int, goal bool) (res T) {
 	se := &SpecEnv{sess: s, pkg: fr.fn.Pkg.Pkg, vars: s.frameEnv(fr), st: st, old: fr.old, fr: fr}
 	if at != nil {
 		se.lookup = s.localLookupAt(fr, st, at, atIdx)
@@ -126,6 +135,9 @@ func (s *Session) evalBoolClauseAt(fr *Frame, c Clause, st *State, at *ssa.Basic
 			panic(r)
 		}
 	}()
+	if goal {
+		return s.evalGoal(se, c.E)
+	}
 	return s.evalBool(se, c.E)
 }
 
@@ -137,9 +149,30 @@ type FuncReport struct {
 	Err     string
 }
 
-func (e *Engine) verifyFunc(c *Contract) (rep *FuncReport) {
+// contractModes lists the modes used by the clauses of a contract.
+func contractModes(c *Contract) []string {
+	seen := map[string]bool{}
+	var out []string
+	for _, cl := range append(append([]Clause{}, c.Requires...), c.Ensures...) {
+		if cl.Mode != "" && !seen[cl.Mode] {
+			seen[cl.Mode] = true
+			out = append(out, cl.Mode)
+		}
+	}
+	return out
+}
+
+// verifyFunc proves the unmoded contract (mode ""); verifyFuncMode proves, for one mode M, the @M postconditions
+// under the unmoded and the @M preconditions.
+func (e *Engine) verifyFunc(c *Contract) (rep *FuncReport) { return e.verifyFuncMode(c, "") }
+
+func (e *Engine) verifyFuncMode(c *Contract, mode string) (rep *FuncReport) {
 	key := c.Pkg + "::" + c.FuncKey
 	short := shortPkg(c.Pkg) + "." + strings.NewReplacer("(*", "", "(", "", ")", "").Replace(c.FuncKey)
+	if mode != "" {
+		key += "@" + mode
+		short += "@" + mode
+	}
 	s := newSession(e, short)
 	rep = &FuncReport{Key: key, Session: s}
 	defer func() {
@@ -185,16 +218,14 @@ func (e *Engine) verifyFunc(c *Contract) (rep *FuncReport) {
 		s.note("receiver of %s assumed non-nil", fn.String())
 	}
 	fr.old = st.clone()
-	for _, cl := range append(append([]Clause{}, c.Requires...), c.Ensures...) {
-		if cl.Mode != "" {
-			rep.Err = "contract modes (@" + cl.Mode + ") are only supported on assumed contracts: " + key
-			return
-		}
-	}
 	for _, rq := range c.Requires {
+		if rq.Mode != "" && rq.Mode != mode {
+			continue
+		}
 		f := s.evalBoolClause(fr, rq, st, nil)
 		s.assume(f)
 	}
+	s.reqEnd = len(s.asserts)
 	fr.old = st.clone()
 	fr.old.Heap = map[string]T{}
 	for k, v := range st.Heap {
@@ -211,9 +242,12 @@ func (e *Engine) verifyFunc(c *Contract) (rep *FuncReport) {
 	bindResults(env, fn.Signature, results)
 	fr.env = env
 	for i, en := range c.Ensures {
+		if en.Mode != mode {
+			continue // the unmoded run proves the unmoded postconditions, the run for mode M proves the @M ones
+		}
 		subs := splitClause(en)
 		for _, sub := range subs {
-			f := s.evalBoolClause(fr, sub, out, nil)
+			f := s.evalGoalClauseAt(fr, sub, out, nil, -1)
 			s.addObl(&Obligation{Name: fmt.Sprintf("%s/post.%s", short, clauseNameSplit(en, i, sub, len(subs))), Kind: "post", Func: short, Src: "ensures " + sub.Src, Guard: out.Reach, Formula: f})
 		}
 	}
